@@ -1086,11 +1086,21 @@ func (s *Sim) register(t *stask, r *request) resume {
 	case regStamp:
 		return resume{n: int64(s.step)}
 	case regLiveChildren:
+		// children of t spawned since step r.n that have not finished; with
+		// r.sub == 1 only those that still have a channel send ahead of them or
+		// under way (not yet started, or announced/parked in a send or a select)
 		n := 0
 		for _, c := range s.tasks {
-			if c.parent == t && c.state != stDone && int64(c.spawnStep) >= r.n {
-				n++
+			if c.parent != t || c.state == stDone || int64(c.spawnStep) < r.n {
+				continue
 			}
+			if r.sub == 1 {
+				k := c.req.kind
+				if !(k == OpStart || k == OpSend || k == OpSelect) {
+					continue
+				}
+			}
+			n++
 		}
 		return resume{n: int64(n)}
 	case regMarkClosed:
@@ -1421,6 +1431,16 @@ func LiveChildrenSince(stamp int64) int {
 		return 0
 	}
 	return int(t.call(request{kind: regLiveChildren, n: stamp}).n)
+}
+
+// UnfinishedSendersSince is LiveChildrenSince restricted to children that have
+// not started yet or are in (or about to enter) a channel send or a select.
+func UnfinishedSendersSince(stamp int64) int {
+	t := current()
+	if t == nil || t.aborting {
+		return 0
+	}
+	return int(t.call(request{kind: regLiveChildren, n: stamp, sub: 1}).n)
 }
 
 // Stamp returns the current global step number.
